@@ -493,6 +493,13 @@ def g3(ctx, res):
     def is_pat(e):
         return matches_any(e, PAT)
 
+    def is_decl_default(e):
+        """<declared>.element.default, possibly through getattr(..., 'default', NotPassed())"""
+        if isinstance(e, ast.Attribute) and e.attr == "default" and isinstance(e.value, ast.Attribute) and e.value.attr == "element":
+            return is_decl(e.value.value)
+        b = match(_parse("getattr(MV_x.element, 'default', NotPassed())"), e)
+        return b is not None and is_decl(b["MV_x"])
+
     def classify(p):
         if p.exit != "return" or p.exit_node.value is None:
             return p.exit
@@ -512,9 +519,14 @@ def g3(ctx, res):
             return "declared"
         # composite built in a (mutated, hence not inlined) local
         if isinstance(e, ast.Name):
-            for node, bb in find(f"{e.id} = MV_P(AllOf(MV_d.element, *MV_q), **MV_kw)", vb.body):
+            for node, bb in find(f"{e.id} = MV_P(AllOf(MV_d.element, *MV_q, **MV_akw), **MV_kw)", vb.body):
                 kws = {k.arg: k.value for k in node.value.keywords}
-                if is_decl(bb["MV_d"]) and is_pat(bb["MV_q"]) and set(kws) == {"source", "required"} \
+                akws = {k.arg: k.value for k in node.value.args[0].keywords}
+                dflt = akws.get("default")
+                carries_default = dflt is not None and is_decl_default(dflt)
+                if is_decl(bb["MV_d"]) and is_pat(bb["MV_q"]) and not carries_default and set(akws) <= {"default"}:
+                    return "composite-without-default"
+                if is_decl(bb["MV_d"]) and is_pat(bb["MV_q"]) and set(kws) == {"source", "required"} and set(akws) == {"default"} \
                         and isinstance(kws["source"], ast.Attribute) and kws["source"].attr == "source" and is_decl(kws["source"].value) \
                         and isinstance(kws["required"], ast.Attribute) and kws["required"].attr == "required" and is_decl(kws["required"].value):
                     binds = find(f"{e.id}.bind(name=MV_n, parent=MV_p)", vb.body)
@@ -1009,6 +1021,22 @@ def g7(ctx, res):
     res.judge(verdict, rq, "[prop.source or name for name, prop in self.items() if prop.required and NP(prop.element.default)]",
               detail={"found": found},
               reason="a property is demanded iff it is required and declares no default; by its JSON name")
+    fe = ctx.cls("Required").methods.get("from_element")
+    if fe is None:
+        raise AnalysisError("Required.from_element vanished")
+    vfe = V(ctx, fe, keep=("required",)).body
+    waived = None
+    reads_explicit = has("getattr(MV_e, 'required', MV__)", vfe)
+    for b in builders(vfe):
+        gts = " ".join(b.guard_texts())
+        if "default" in gts or "defaulted" in gts or "not in" in gts:
+            waived = True
+    if waived is None and reads_explicit:
+        waived = False
+    res.judge(waived, fe, "explicit required names are waived for properties that declare a default",
+              reason="`required` given as a keyword list (what the parser produces for untyped schemas) demands a defaulted "
+                     "property although the same schema as a class does not: Element(required=['a'], properties={'a': "
+                     "Property(String(default='x'))})({}) raises")
     an = ctx.cls("_Property").props["annotation"]["get"]
 
     def rec(e):
